@@ -189,6 +189,14 @@ def run_shards(binary, prop, tier, nshards, deadline, seed, replay=None, extra_e
             tail = open(os.path.join(outdir, "shard%d.log" % i)).read()
             prog = rp + ".progress"
             fatal = re.search(r"fatal error: [^\n]*|panic: [^\n]*", tail)
+            if fatal and "out of memory" in fatal.group(0) and PROPS[prop][0] != "domwalk":
+                # an exploring shard runs thousands of executions in one process: running out of
+                # memory says something about the process (it stops by itself at a 4 GB heap, see
+                # core.Report.Expired), not about the case at hand - only for the codec check, where
+                # one case is one decode and bounded allocation is the property, it is a violation
+                log("WARNING: shard %d of %s ran out of memory; what it had explored is lost, nothing is concluded from it" % (i, prop))
+                reports.append({"exhaustive": False, "caps_hit": ["shard %d ran out of memory (its coverage is not counted)" % i]})
+                continue
             if os.path.exists(prog) and fatal:
                 # the code under test killed the process (out of memory, unrecoverable panic)
                 # while working on the case named in the progress file: that is a violation of the
